@@ -133,6 +133,14 @@ CHECKS.update({
          "DESIGN.md §4 C15"),
 })
 
+CHECKS.update({
+ "C01": ("E1-choice-tree",
+         "bounded-exhaustive enumeration of token soups, one-deviation mutations, type form x position products, comment/directive soups and size-parametrised cost families in crash-isolated worker processes, plus the option product of the real binary",
+         "Every token sequence up to the bound over a 67-token alphabet in 10 contexts, every single-token and single-character deviation of 8 base programs, 175 type forms in 14 positions, comment and directive soups, 12 cost-growth families doubling up to 8 KiB (each instance alone under the statement's time bound) are compiled, level-updated and emitted in both formats inside worker processes whose death (stack overflow, abort, signal) or silence is observed by the parent; the binary is run over the option product. Only 'terminates with a verdict within the bound' is judged.",
+         "trusted: the worker isolation in mc/src/engine.rs; inputs larger than the bounds are not covered; only inputs <= 8 KiB are timed against the 20 s clause; Unicode is represented by one code point per UTF-8 length class and per hazard",
+         "DESIGN.md §4 C01"),
+})
+
 NOT_YET = {}
 
 def main():
